@@ -892,6 +892,27 @@ pub fn conv_probe_utc(
             // (from 1900 on: before it the calendar code has a defect of its own, DESIGN.md 7)
         }
         if u % NS_PER_S == 0 && u >= 0 && u < 10_000_000_000 * NS_PER_S {
+            // ...and through text: the epoch printed in UTC (its own scale) and in TAI (`{:x}`),
+            // read back, is this instant, and converts to the same TAI count.
+            use core::str::FromStr;
+            for (name, text) in [("Display", format!("{e}")), ("LowerHex (TAI)", format!("{e:x}")), ("Display of its TAI conversion", format!("{tai}"))] {
+                match Epoch::from_str(&text) {
+                    Ok(b) => {
+                        if b.to_time_scale(TimeScale::TAI).duration != tai.duration || b.to_time_scale(TimeScale::UTC).duration != e.duration {
+                            return Err(format!(
+                                "UTC count {u} ns (a whole second): printed through {name} as {text:?} and read back it is UTC {:?} / TAI {:?}",
+                                b.to_time_scale(TimeScale::UTC).duration.to_parts(),
+                                b.to_time_scale(TimeScale::TAI).duration.to_parts()
+                            ));
+                        }
+                    }
+                    Err(err) => {
+                        return Err(format!(
+                            "UTC count {u} ns (a whole second): printed through {name} as {text:?}, which does not read back ({err})"
+                        ));
+                    }
+                }
+            }
             let (y, mo, d, h, mi, sec, ns) = e.to_gregorian_utc();
             let b = Epoch::from_gregorian_utc(y, mo, d, h, mi, sec, ns);
             if b.time_scale != TimeScale::UTC || b.duration != e.duration || b.to_time_scale(TimeScale::TAI).duration != tai.duration {
